@@ -24,6 +24,7 @@ import OFV.Proofs.C08Fock
 import OFV.Proofs.C08Car
 import OFV.Proofs.C08Maj
 import OFV.Proofs.C08Comp
+import OFV.Proofs.C08ScatterC03
 
 namespace OFV.C08
 open OFV OFV.Spec OFV.Spec.C08 OFV.Model.C08 OFV.C08P
@@ -273,5 +274,39 @@ example : ∀ f ∈ ([(1, 1), (0, 0)] : Model.Term), f.2 < 2 := by decide
 strictly increasing terms (which `MajoranaOperator.__init__` guarantees). -/
 theorem majorana_mul_hom (a b : Model.MOp) (ha : SortedM a) : evM (Model.mmul a b) = evM a * evM b :=
   evM_mmul a b ha
+
+/-! ### `get_interaction_operator` -/
+
+/-- **the scatter loop of `get_interaction_operator` is sound on normal-ordered input**: for a
+dictionary `no` with distinct terms, no negligible coefficient and mode indices `< n` (what
+`normal_ordered` returns), if the loop succeeds — i.e. every term has one of the shapes `()`,
+`p^ q`, `p^ q^ r s` — the InteractionOperator `(constant, one_body, two_body)` it fills by
+ASSIGNMENT denotes the same formal polynomial as `no` (for every weight on words; no entry is
+overwritten because the terms are distinct). -/
+theorem get_interaction_operator_scatter_sound (tol : Rat) (n : Nat) (no : Model.Op) (c : GQ)
+    (one two : Tensor) (h : scatterIO tol n no = .ok (c, one, two)) (hnd : (no.map Prod.fst).Nodup)
+    (hsm : ∀ e ∈ no, GQ.isSmall tol e.2 = false) (hn : ∀ e ∈ no, ∀ f ∈ e.1, f.1 < n)
+    (w : Model.Term → GQ) :
+    evalW w (denotePT (mkIO c one two).d) = evalW w no :=
+  scatterIO_denote tol n no c one two h hnd hsm hn w
+
+/-- **`get_interaction_operator_sound`**: whenever `get_interaction_operator(A, n_qubits)` succeeds,
+the InteractionOperator has the matrix elements of `A` — for every FermionOperator with actions 0 / 1
+in ANY spelling (non-normal-ordered terms, repeated indices, any `n_qubits ≥ count_qubits`), at the
+live tolerance on coefficients of a lattice `(1/D)·ℤ[i]` with `tol·D ≤ 1` (all dyadic inputs:
+`D = 2^26` for `1e-8`).  `normal_ordered` is the Model of C03 and its soundness / exact-regime
+theorems are used (`normalOrdered_sound_melF`, `normal_ordered_exact_regime_aux`). -/
+theorem get_interaction_operator_sound (D : Nat) (hD : 0 < D) (tol : Rat) (h0 : 0 ≤ tol) (h1 : tol * D ≤ 1)
+    (A : Model.Op) (n? : Option Nat) (P : PT) (hv : ∀ e ∈ A, ∀ f ∈ e.1, f.2 < 2)
+    (la : ∀ e ∈ A, Proofs.C03.Lat D e.2) (h : getInteractionOperator tol A n? = .ok P) (t s : Nat) :
+    melF (denotePT P.d) t s = melF A t s :=
+  getIO_sound D hD tol h0 h1 A n? P hv la h t s
+
+/-- non-vacuity: the live tolerance admits the dyadic lattice `2^-26`, and `a_0 a†_1 / 4` converts -/
+example : (0 : Rat) ≤ Generated.eqTolerance ∧ Generated.eqTolerance * ((2 ^ 26 : Nat) : Rat) ≤ 1 ∧
+    (match getInteractionOperator Generated.eqTolerance [([(0, 0), (1, 1)], ⟨1/4, 0⟩)] none with
+      | .ok P => P.n
+      | .error _ => 0) = 2 := by
+  refine ⟨by norm_num [Generated.eqTolerance], by norm_num [Generated.eqTolerance], by decide +kernel⟩
 
 end OFV.C08
